@@ -37,6 +37,19 @@ MUTANTS = {
                                                        "        self.mapfile_transformer = self.transformer_class(\n            include_position=self.include_position or getattr(MapfileToDict, '_seen_pos', False),"),
                                                       ("mappyfile/transformer.py", "    def transform(self, tree):\n        tree = Canonize().transform(tree)\n", "    def transform(self, tree):\n        tree = Canonize().transform(tree)\n        MapfileToDict._seen_pos = getattr(MapfileToDict, '_seen_pos', False) or self.include_position\n")]),
     ],
+    "C03": [
+        ("hidden_keys_printed_in_key_value_blocks", [(PP, "        for k, v in d.items():\n            if not self.__is_metadata(k):\n                qk = self.quoter.add_quotes(k)", "        for k, v in d.items():\n            if k != \"__type__\":\n                qk = self.quoter.add_quotes(k)")]),
+        ("empty_dict_guard_only_for_enums_again", [(PP, "        if isinstance(value, dict):\n            # composites", "        if isinstance(value, dict) and \"enum\" in attr_props:\n            # composites")]),
+        ("enum_values_quoted", [(PP, "                return str(value).upper()  # value is from a set list, no need for quote", "                return self.quoter.add_quotes(str(value).upper())")]),
+        ("allof_not_unwrapped_again", [(PP, "        if \"allOf\" in attr_props and len(attr_props[\"allOf\"]) == 1:", "        if False:")]),
+        ("bindings_in_lists_quoted_again", [(PP, "                    and not (self.quoter.is_string(v) and self.quoter.in_brackets(v))\n", "")]),
+        ("regex_i_quoted_again", [("mappyfile/quoter.py", "        if len(val) > 2 and val.endswith(\"/i\"):", "        if False:")]),
+        ("repeated_keys_last_value_only", [(PP, "        for v in lst:\n            k = key.upper()", "        for v in lst[-1:]:\n            k = key.upper()")]),
+        ("print_cache_by_identity", [(PP, "    def _format(self, composite: dict, level: int = 0) -> list[str]:\n        lines: list[str] = []", "    def _format(self, composite: dict, level: int = 0) -> list[str]:\n        if not hasattr(self, \"_seen\"):\n            self._seen = set()\n        if id(composite) in self._seen:\n            return []\n        self._seen.add(id(composite))\n        lines: list[str] = []")]),
+        ("dump_writes_before_formatting_finishes", [(UT, "    map_string = _pprint(\n        d,\n        indent,\n        spacer,\n        quote,\n        newlinechar,\n        end_comment,\n        align_values,\n        separate_complex_types,\n    )\n    fp.write(map_string)", "    fp.write(\"\")\n    fp.write(_pprint(d, indent, spacer, quote, newlinechar, end_comment, align_values, separate_complex_types))")]),
+        ("save_opens_file_before_formatting", [(UT, "    map_string = _pprint(\n        d,\n        indent,\n        spacer,\n        quote,\n        newlinechar,\n        end_comment,\n        align_values,\n        separate_complex_types,\n    )\n    _save(output_file, map_string)", "    with codecs.open(output_file, \"w\", encoding=\"utf-8\") as f:\n        f.write(_pprint(d, indent, spacer, quote, newlinechar, end_comment, align_values, separate_complex_types))")]),
+        ("projection_single_string_unquoted", [(PP, "            for v in lst:\n                v = self.quoter.add_quotes(v)\n                lines.append(f\"{whitespace}{v}\")", "            for v in lst:\n                lines.append(f\"{whitespace}{v}\")")]),
+    ],
     "C09": [
         ("range_test_exclusive", [(VA, "if version < min_version or version > max_version:", "if version <= min_version or version > max_version:")]),
         ("range_test_max_exclusive", [(VA, "if version < min_version or version > max_version:", "if version < min_version or version >= max_version:")]),
